@@ -57,7 +57,8 @@ CONSTANTS
   Keys <- GenKeys
   Scalars <- GenScalars
   Prebuilt <- GenPrebuilt
-  Hints = %s
+  Hints <- GenHints
+  HintMode = "%s"
   TopKind = "%s"
   MaxNodes = %d
   MaxDepth = %d
@@ -70,7 +71,7 @@ CONSTANTS
 INVARIANTS %s
 PROPERTIES RejectIsNoop FinishedNeverChanges
 CHECK_DEADLOCK FALSE
-""" % (tla_set(str(h) for h in hints), topkind, nodes, depth, rejects, resets, tla_strs(routes),
+""" % (("zero" if tuple(hints) == (0,) else "varied"), topkind, nodes, depth, rejects, resets, tla_strs(routes),
        nkeys, tla_strs(kinds), prebuilt, " ".join(inv))
     if view:
         cfg += "VIEW core\n"
@@ -120,4 +121,47 @@ def c12(ctx):
              "distinct call sequences; each is replayed per target builder and concretisation profile",
         assumptions=["TLC explores the bounded instance exhaustively; bounds are in coverage.tlc_runs",
                      "result classes: ok / repeated_key (datamodel.ErrRepeatedMapKey) / wrong_kind (any error from that call)"],
+        exhaustive=True)
+
+
+def selftest(ctx):
+    rep = ctx.vh_run(["selftest"])
+    if rep.get("extra", {}).get("selftest_failures", 1) != 0:
+        raise vlib.MachineryError("observation checker self-test failed:\n" + rep.get("_stderr", ""))
+    ctx.notes.append("projection self-test: reference node accepted, %d broken-node variants rejected" % rep["cases"])
+
+
+ALLK = ("null", "bool", "int", "float", "string", "bytes", "link")
+
+
+@prop("C01")
+def c01(ctx):
+    quick = ctx.tier == "quick"
+    profiles = sorted({0, ctx.seed % 4}) if quick else [0, 1, 2, 3]
+    selftest(ctx)
+    # (1) every value up to the bound over all nine kinds x every route, AssignNode from every implementation
+    asm_generate_and_replay(ctx, "allkinds", dict(topkind="any", nodes=3, depth=2, nkeys=2, rejects=0,
+                                                  kinds=ALLK, prebuilt="all+uint"), profiles, deep=True)
+    # (2) larger shapes, size hints of every sign, fewer scalar kinds
+    asm_generate_and_replay(ctx, "hints", dict(topkind="any", nodes=4 if quick else 5, depth=2 if quick else 3, nkeys=2, rejects=0,
+                                               kinds=("int", "string"), prebuilt="none",
+                                               hints=(-1, 0, 1, 7), routes=("entry", "keyvalue")), profiles, deep=True)
+    # (3) kind-restricted builders: Prototype.Map / .List and typed (bindnode) containers
+    asm_generate_and_replay(ctx, "map", dict(topkind="map", nodes=4, depth=2, nkeys=2 if quick else 3, rejects=0,
+                                             kinds=("int", "bytes", "null"), prebuilt="all"), profiles, deep=True)
+    asm_generate_and_replay(ctx, "list", dict(topkind="list", nodes=4, depth=2, nkeys=2, rejects=0,
+                                              kinds=("int", "link", "float"), prebuilt="all"), profiles, deep=True)
+    # (4) scalar prototypes
+    for k in ("bool", "int", "float", "string", "bytes", "link"):
+        asm_generate_and_replay(ctx, "scalar-" + k, dict(topkind=k, nodes=1, depth=1, nkeys=1, rejects=1,
+                                                         kinds=ALLK, prebuilt="basic"), [0, 1, 2, 3], deep=True)
+    return ctx.finish(
+        "model_checking",
+        rule="behaviours = every legal call sequence of Assembler.tla inside the bounds (all routes: AssembleEntry vs "
+             "AssembleKey/AssembleValue, Assign<Kind> vs AssignNode from basicnode/bindnode/foreign nodes, size hints); "
+             "each Build is read back through every read form and compared with DataModel!Obs of the specified value, "
+             "then DeepEqual/Copy against every other implementation; non-trivial = has a container or AssignNode; "
+             "distinct = distinct call sequences",
+        assumptions=["bounded value size (see tlc_runs); scalar payloads come from the concretisation profiles in harness/model/conc.go",
+                     "DeepEqual/Copy are not asserted for uint64 values above MaxInt64 (they go through AsInt; 'where supported')"],
         exhaustive=True)
